@@ -39,7 +39,7 @@ Section Model.
     kq_alg QN q = KSingleVia -> kq_target QN q = Some t -> ksp_query_k (kq_k QN q) (kq_qk QN q) = Ok k ->
     run_with QN cos_ge_Q fuel w q f = mrun f (pop_min Qltb) k (kq_term QN q) (kq_source QN q) t.
   Proof.
-    intros Ha Ht Hk. unfold run_with, Ksp.run_vertex_oriented. rewrite Ht, Hk. cbn [bind]. rewrite Ha. reflexivity.
+    intros Ha Ht Hk. unfold run_with, run_with_at, Ksp.run_vertex_oriented. rewrite Ht, Hk. cbn [bind]. rewrite Ha. reflexivity.
   Qed.
 
   Lemma known_edge_dist e ed : get_edge g e = Some ed -> edge_dist QN w e = Ok (costf e).
